@@ -449,7 +449,7 @@ static void run_case (char **lines, int n) {
 		if (!strcmp (w[0], "race") && nw == 6) {
 			int k = atoi (w[1]), t1 = atoi (w[2]), t2 = atoi (w[4]);
 			if (t1 == t2 || t1 <= 0 || t2 <= 0 || t1 >= nextT || t2 >= nextT || slots[t1].state != RUNNING || slots[t2].state != RUNNING
-			    || slots[t1].pending || slots[t2].pending || !key_ok (k)) { bad (); continue; }
+			    || slots[t1].pending || slots[t2].pending || slots[t1].joining || slots[t2].joining || !key_ok (k)) { bad (); continue; }
 			race_go = 0;
 			if (!kpub[k]) kraced[k] = 1;          /* how many native keys this first use creates is up to the scheduler */
 			slots[t1].op.kind = O_RACE; slots[t1].op.k = k; slots[t1].op.v = strtoul (w[3], NULL, 10);
